@@ -141,10 +141,32 @@ func (fc *flowChecker) judge(t *rapid.T, c *flowCase, res *native.Result) {
 				_ = core.WriteFiles(d, map[string]string{"what.txt": what + "\n" + strings.Join(c.Prog.FeatList(), " ") + "\n"})
 				continue
 			}
+			if knownInput(fc.id, c.Prog.Main) {
+				// a recorded finding identified by this very program (see known_findings.json): reported by the replay
+				// of the finding as KNOWN-FINDING, not as a new violation
+				fc.rec.Count("excluded_by_known_finding", 1)
+				fc.rec.Count("generated_program_is_a_recorded_finding", 1)
+				continue
+			}
 			msg := writeFlowViolation(fc.id, strings.ToLower(fc.id), c, v, what, obs, "missed-"+featureSignature(c.Prog))
 			t.Fatalf("%s", msg)
 		}
 	}
+}
+
+// knownInput reports whether the program is, line for line, the stored input of a known (unrepaired) finding of the
+// property: such a finding is identified by its specific input and has no generator exclusion.
+func knownInput(id, main string) bool {
+	for _, f := range loadFindings() {
+		if f.Property != id || f.Status != "known" {
+			continue
+		}
+		b, err := os.ReadFile(filepath.Join(env.Root, f.Repro, "main.go"))
+		if err == nil && string(b) == main {
+			return true
+		}
+	}
+	return false
 }
 
 func afterDecls(main string) string {
